@@ -11,7 +11,10 @@ import FpgoVerif.Model.C09Sys
         sequential run of the same job list on `step`.
 
     cfg: max sb batch c b cq(1/0) jam(ms, 0 = never).  Job kinds: f fast, g gated, p<v> gated then panics
-    with v, q<v> panics at once.  Park points: sched wclosed afterjob exit expiry closeflag tryspawn. -/
+    with v, q<v> panics at once.  Park points: sched wclosed afterjob exit expiry closeflag tryspawn.
+    `nh` = SetPanicHandler(nil), `sh` = SetPanicHandler(recorder), `nhs` = SetDefaultWorkerPoolSettings with a
+    nil handler (then all setters again), `hs:<ms>` = the recording handler sleeps first (slow handler; no
+    effect on the model). -/
 namespace FpgoVerif.C09
 
 inductive Kind | fast | gated | pgated (v : Nat) | pnow (v : Nat)
@@ -264,6 +267,14 @@ def doOp (m : Sim) (tok : String) : Sim × String :=
       | some a => if a.s.workers.length > acc.s.workers.length then { a with jam := false } else a
       | none => acc) m
     (quiesce fuel0 m1, "pre")
+  | ["jam", ms] => ({ m with jamMs := ms.toNat!, jam := if ms.toNat! == 0 then false else m.jam }, "jam")
+  | ["nh"] => ((app m (.setHandler false)).getD m, "nh")
+  | ["sh"] => ((app m (.setHandler true)).getD m, "sh")
+  | ["nhs"] =>
+    -- SetDefaultWorkerPoolSettings with a nil handler, then every setter again (each calls notifyWorkers)
+    let m1 := (app m (.setHandler false)).getD m
+    (quiesce fuel0 ((app m1 .notify).getD m1), "nhs")
+  | ["hs", _] => (m, "hs")
   | ["exp", ms] => ({ m with expOn := ms.toNat! > 0 && ms.toNat! < 1000 }, "exp")
   | ["sleep", ms] =>
     let m1 := if m.jamMs > 0 && ms.toNat! ≥ 2 * m.jamMs then { m with jam := true } else m
